@@ -312,9 +312,11 @@ def scsi_layout(prog):
          "opcodes": _one_attr(B, lambda v: isinstance(v, EnumVal), "the command-set table", "SCSIDevice")}
     for role, a, b in (("read_write", True, False), ("detect", False, True), ("buffering", 7, 9)):
         names = [k for k in B if k in A and A[k] is a and B[k] is b] if role != "buffering" else [k for k in B if A.get(k) == a and B[k] == b and not isinstance(B[k], bool)]
-        if len(names) != 1:
+        if len(names) > 1:
             raise AnalysisError("anchor-missing", "SCSIDevice: cannot tell where the %s argument is kept (candidates %s)" % (role, names))
-        L[role] = names[0]
+        # (an object that keeps something derived from the argument -- the mode string for readwrite, say -- has no such
+        # slot: what it keeps instead is among the "others", as the probe construction left it)
+        L[role] = names[0] if names else None
     L["ident_shape"] = B.get(L["ident"])
     if len([k for k, v in B.items() if _contains_stat(v)]) > 1:
         raise AnalysisError("anchor-missing", "SCSIDevice keeps the identity of the node it opened in more than one place")
@@ -423,6 +425,8 @@ def make_scsi_device(prog):
     if L["ident"] is not None:
         parts[L["ident"]] = _recorded(L["ident_shape"])
     for k, v in parts.items():
+        if k is None:
+            continue
         _put_path(dev, k, v, L["_nested"])        # (helper objects the device is composed of are built afresh per device)
     return dev
 
